@@ -1,5 +1,7 @@
 """C16 (diagonal solver) on the real code: for dense, sparse and symbolic right-hand sides the returned V satisfies
 E_a V_ab - V_ab E_b = Y_ab wherever |E_a - E_b| > atol and V_ab = 0 elsewhere; all entries finite."""
+import os, sys; sys.path.insert(0, os.path.dirname(os.path.abspath(__file__)))
+from common import case_rnd, skip
 import sys, json, random, warnings
 from fractions import Fraction
 import numpy as np, sympy
@@ -13,6 +15,8 @@ def main(seed, ncases, driver, out):
     enum = [([2, 2], [[1, 2], None], (i, j), car) for car in ("dense", "sparse", "sympy") for (i, j) in ((0, 1), (1, 0), (0, 0), (1, 1))] + \
            [([2, 3], [[1, 1], [11, 12, 12]], (i, j), car) for car in ("dense", "sparse", "sympy") for (i, j) in ((0, 1), (1, 0), (0, 0), (1, 1))]
     for c in range(len(enum) + ncases):
+        if skip(c): continue
+        rnd = case_rnd(seed, c)
         if c < len(enum):
             sizes, eigs, (i, j), forced = enum[c]; nb = len(sizes)
         else:
